@@ -10,7 +10,7 @@ import numpy as np
 import gen
 from canon import build, err_name
 from core import impl_construct
-from props.c01 import roundtrip
+from props.c01 import roundtrip, big_and_twins
 
 DTYPES = ["<f2", "<f4", "<f8", "|i1", "<i2", "<i4", "<i8", "|u1", "<u2", "<u4", "<u8", "|b1", "<c8", "<c16"]
 LAYOUTS = [None, "F", "neg", "step", "T", "bcast"]
@@ -173,6 +173,7 @@ def run(ctx):
                                 observed={"dtype": str(a.dtype), "shape": list(a.shape)},
                                 required={"dtype": str(d0), "shape": list(s0)})
                     break
+        big_and_twins(ctx, tmpdir)
         ctx.compare("files", cases, obs, reqs)
     finally:
         import shutil
